@@ -23,7 +23,7 @@ fn usage() -> ! {
 
 fn main() {
     let args: Vec<String> = std::env::args().collect();
-    if args.len() < 3 {
+    if args.len() < 2 {
         usage();
     }
     panics::install();
@@ -40,6 +40,20 @@ fn main() {
         let journal = args[8].clone();
         pool::worker_main(&prop, tier, seed, shard, nshards, &out, &journal);
         return;
+    }
+    if args[1] == "--corpus" {
+        let all = corpus::candidates();
+        let acc = corpus::accepted();
+        println!("candidates={} accepted={}", all.len(), acc.len());
+        if args.len() > 2 {
+            for (i, s) in acc.iter().enumerate().take(args[2].parse().unwrap_or(3)) {
+                println!("--- {}\n{}", i, s);
+            }
+        }
+        return;
+    }
+    if args.len() < 3 {
+        usage();
     }
     let prop = args[1].to_uppercase();
     if props::lookup(&prop).is_none() {
